@@ -15,11 +15,19 @@ def _set(mod, name, val):
 _MISSING = object()
 
 
+import weakref
+
+MANAGERS = weakref.WeakSet()      # every stand-in manager that still exists (a real one's process lives as long as its object)
+
+
 class FakeManager:
-    """stand-in for NonPickledSyncManager / SyncManager (no OS process)"""
+    """stand-in for NonPickledSyncManager / SyncManager (no OS process): like the real one its process is stopped by shutdown()
+    or when the object is garbage-collected"""
 
     def __init__(self, *a, **k):
         self.started = False
+        self.manager = self           # NonPickledSyncManager.manager: the wrapped SyncManager
+        MANAGERS.add(self)
 
     def start(self):
         self.started = True
@@ -27,7 +35,8 @@ class FakeManager:
 
     def shutdown(self):
         self.started = False
-        sim.S.ledger['manager_stopped'] += 1
+        if sim.S is not None:
+            sim.S.ledger['manager_stopped'] += 1
 
     def list(self, init=()):
         return sim.SharedList(init)
@@ -36,7 +45,11 @@ class FakeManager:
         return sim.RLock()
 
     def __deepcopy__(self, memo):
-        return self
+        # what a forked worker holds is its own copy; the manager PROCESS belongs to the object of the process that started it
+        v = object.__new__(FakeManager)
+        v.started = False
+        v.manager = None
+        return v
 
 
 def install(seed, max_steps=3000000, max_virtual=3000.0):
@@ -337,6 +350,13 @@ def uninstall():
     if sim.S is not None:
         try:
             sim.S.shutdown()
+        except Exception:
+            pass
+        try:
+            # the caller's (real) thread was bound to this scheduler: the binding must not keep the whole run alive
+            import threading as _rt
+            if getattr(_rt.current_thread(), '_sim_sched', None) is sim.S:
+                _rt.current_thread()._sim_sched = None
         except Exception:
             pass
         sim.S = None
